@@ -210,6 +210,15 @@ def from_xyz(ctx, prog, rule):
             nxt = find_path(g, g.get(rl[0], []), {rl[0]}, set(cl))
             okc = nxt is None
     ctx.ob(rule, "line-buffer-cleared/from-xyz", okc, "every iteration of the read loop clears the reused line buffer before the next read_line (otherwise a short line is glued to the next one)")
+    # the colour limits stay the declared range of the u8 prototype: e57-to-xyz inverts the normalisation with x255, which
+    # only returns the stored byte when limits = 0..255 (a limit override computed from the data stretches the colours)
+    Rm = Resolver(m)
+    overrides = []
+    for bi, t in m.calls(lambda c, t: c.rsplit("::", 1)[-1] in ("set_color_limits", "set_intensity_limits")):
+        consts = all(not any(y[0] in ("param", "local", "phi", "field", "partial", "index", "call", "binop", "unop") for y in leaves(Rm.operand(a))) for a in t["args"][1:])
+        if not consts:
+            overrides.append(m.file_line(bi))
+    ctx.ob(rule, "limits-not-overridden/from-xyz", not overrides, "e57-from-xyz leaves the colour limits at the declared 0..255 range (limit overrides computed at run time: %s)" % overrides, nontrivial=False)
     # each point goes to add_point, both finalize calls are made and checked
     S = Steps(ctx, m, rule)
     S.step("add-point", calls_where(m, lambda c, t, R: c.endswith("PointCloudWriter::<'a, T>::add_point")))
